@@ -265,6 +265,30 @@ class _Inliner:
                 if rep is not None:
                     return rep
             return e
+        if isinstance(e, ast.ListComp) and len(e.generators) == 1 and not e.generators[0].is_async and self._has_target(e.elt, cls, selfname, owner):
+            # [E(helper(..)) for v in IT if c]  ->  acc = []; for v in IT: if c: acc.append(E(..))   (then the helper is inlined in the loop body)
+            gen = e.generators[0]
+            self.counter += 1
+            tag = f"{_PREFIX}{self.counter}_"
+            acc = tag + "acc"
+            names = {x.id for x in ast.walk(gen.target) if isinstance(x, ast.Name)}
+            rn = _Rename({n: tag + n for n in names})
+            target = rn.visit(copy.deepcopy(gen.target))
+            elt = rn.visit(copy.deepcopy(e.elt))
+            ifs = [rn.visit(copy.deepcopy(c)) for c in gen.ifs]
+            it = self._expr(gen.iter, cls, selfname, owner, pre)
+            app = ast.Expr(value=ast.Call(func=ast.Attribute(value=ast.Name(id=acc, ctx=ast.Load()), attr="append", ctx=ast.Load()), args=[elt], keywords=[]))
+            body = [app]
+            for c in reversed(ifs):
+                body = [ast.If(test=c, body=body, orelse=[])]
+            loop = ast.For(target=target, iter=it, body=body, orelse=[])
+            init = _assign(acc, ast.List(elts=[], ctx=ast.Load()), e)
+            for s_ in (init, loop):
+                ast.copy_location(s_, e)
+                ast.fix_missing_locations(s_)
+            loop.body = self._block(loop.body, cls, selfname, owner)
+            pre.extend([init, loop])
+            return ast.copy_location(ast.Name(id=acc, ctx=ast.Load()), e)
         if isinstance(e, (ast.BoolOp, ast.IfExp, ast.Lambda, ast.ListComp, ast.SetComp, ast.DictComp, ast.GeneratorExp, ast.NamedExpr,
                           ast.Yield, ast.YieldFrom, ast.Await)):
             # conditionally / repeatedly evaluated parts: only the first operand of a BoolOp and the test of an IfExp are strict
@@ -281,6 +305,14 @@ class _Inliner:
             elif isinstance(val, list):
                 setattr(e, field, [self._expr(v, cls, selfname, owner, pre) if isinstance(v, ast.expr) else v for v in val])
         return e
+
+    def _has_target(self, e, cls, selfname, owner) -> bool:
+        for x in _walk_own(e):
+            if isinstance(x, ast.Call):
+                t = self._target(x, cls, selfname)
+                if t is not None and t[0] is not owner:
+                    return True
+        return False
 
     def _inline_call(self, call, fn, receiver, pre):
         params = [a.arg for a in fn.args.posonlyargs + fn.args.args]
